@@ -36,7 +36,8 @@ def parseOp (s : String) : Option Op :=
     pure (.sync (← j.toNat?) res)
   | ["stop", j] => do pure (.stop (← j.toNat?))
   | ["restart", j] => do pure (.restart (← j.toNat?))
-  | ["clean", j, g] => do pure (.clean (← j.toNat?) (g == "1"))
+  | ["clean", j, g] => do pure (.clean (← j.toNat?) (g == "1") 0)
+  | ["clean", j, g, nb] => do pure (.clean (← j.toNat?) (g == "1") (← nb.toNat?))
   | ["join", j, via, r, ps] => do pure (.join (← j.toNat?) (← via.toNat?) (← parseRes r) (← parsePinset ps))
   | ["padd", j, via, r, ps] => do pure (.join (← j.toNat?) (← via.toNat?) (← parseRes r) (← parsePinset ps))
   | ["prm", i, p, r, cs] => do pure (.peerRm (← i.toNat?) (← p.toNat?) (← parseRes r) (← parseCalls cs))
@@ -74,15 +75,18 @@ def parseObsTok (o : Obs) (t : String) : Option Obs :=
 def parseCase (ws : List String) : Option Case := do
   let (pre, post) ← splitArrow ws
   match pre with
-  | t :: r :: rp :: ini :: ops =>
+  | t :: r :: rp :: ini :: ops0 =>
+    let ops := ops0
     let tier ← if t == "c" then some Tier.cons else if t == "k" then some Tier.cluster else none
     let retries ← (r.drop 2).toNat?
     let repin := rp == "rp=1"
     let init ← nats (ini.drop 5).toString
     -- `bulk@i@n` is a harness-only marker (a long log of pins that the script re-asserts right after)
-    let ops ← (ops.filter (fun t => !t.startsWith "bulk@")).mapM parseOp
+    let ops ← (ops.filter (fun t => !(t.startsWith "bulk@" || t.startsWith "snap@" || t.startsWith "br=" || t.startsWith "ts="))).mapM parseOp
+    let keep := ((ops0.find? (·.startsWith "br=")).bind (fun t => (t.drop 3).toNat?)).getD 2
+    let slash := ops0.any (· == "ts=1")
     let obs ← post.foldlM parseObsTok { members := [], gone := [] }
-    pure { tier := tier, repin := repin, retries := retries, init := init, ops := ops, obs := obs }
+    pure { tier := tier, repin := repin, retries := retries, init := init, keep := keep, slash := slash, ops := ops, obs := obs }
   | _ => none
 
 def isMembershipOp : Op → Bool
@@ -108,7 +112,7 @@ def armOf (k : Case) : String :=
     | .sync _ x => "sync-" ++ (match x with | .ok => "ok" | .err => "err" | .okNoVote => "ok-novote")
     | .stop _ => "stop"
     | .restart _ => "restart"
-    | .clean _ g => if g then "clean-gone" else "clean-kept"
+    | .clean _ g nb => (if g then "clean-gone" else "clean-kept") ++ "-b" ++ toString nb
     | .join _ _ x _ => "join" ++ r x
     | .peerRm a p x cs => (if !s.members.contains p then "prm-absent" else if s.members == [p] then "prm-last"
                      else if a == p then "prm-self" else "prm-other") ++ (if cs.length > 1 then "-repinned" else "") ++ r x
@@ -119,13 +123,13 @@ def answer (ws : List String) : String :=
   | none => "bad-case parse"
   | some k =>
     if k.init.isEmpty then "bad-case empty-init" else
-    let arm := (if k.tier == .cons then "c:" else "k:") ++ armOf k ++ ":n" ++ toString (finalSt (specInit k.init) k.ops).members.length
+    let arm := (if k.tier == .cons then "c:" else "k:") ++ (if k.slash then "slash:" else "") ++ armOf k ++ ":n" ++ toString (finalSt (specInit k.init) k.ops).members.length
     let failed := (clauses k).filter (fun c => !c.2)
     let triv := if k.ops.any isMembershipOp then "" else " trivial"
     if !failed.isEmpty then
       "propfail " ++ ",".intercalate ((failed.map (·.1)).eraseDups) ++ " arm=" ++ arm
     else if !allowed k then
-      let why := match replay (initState k.tier k.repin k.init) k.ops with
+      let why := match replay ⟨k.keep, k.slash⟩ (initState k.tier k.repin k.init) k.ops with
         | none => "outcome-not-allowed"
         | some s => "observation: model-peers=" ++ showNats s.ids ++ " model-pins=" ++ toString s.pins.length
       "diff arm=" ++ arm ++ " " ++ why
